@@ -13,6 +13,7 @@
  *   fault <off> <0|1>             > fault ok        (with -DFMT_FAULT, C01) the next 16-byte fcache_pread() at file
  *                                 offset <off> (an LKCD page descriptor) fails once: 0 = KDUMP_ERR_SYSTEM (EIO), 1 = KDUMP_ERR_BUSY
  *   unfault                       > fault fired|pending    and disarms
+ *   vsym|vline <hexname|->        > vsym <status> <num | ->   /  > vline <status> <hex>. | -     (kdump_vmcoreinfo_symbol / _line)
  *   close
  *   tree                          > tree key=value|key=value|...   (whole attribute tree)
  * Every line also carries the C16 monitor verdict (status documented, message
@@ -198,6 +199,23 @@ static void run_cmd(kdump_ctx_t *ctx, char *line)
 		printf("> fault %s\n", fault_fired ? "fired" : "pending");
 		fault_armed = fault_fired = 0;
 #endif
+	} else if (!strncmp(line, "vsym ", 5) || !strncmp(line, "vline ", 6)) {
+		/* VMCOREINFO look-ups by name; the name is hex-coded (`-` = the empty name) so that every byte can occur */
+		int sym = line[1] == 's'; const char *h = line + (sym ? 5 : 6); char name[256]; size_t n = 0; kdump_status st;
+		if (strcmp(h, "-")) for (; h[0] && h[1] && n < sizeof name - 1; h += 2) { unsigned v; sscanf(h, "%2x", &v); name[n++] = (char)v; }
+		name[n] = 0;
+		if (sym) {
+			kdump_addr_t v = 0;
+			st = kdump_vmcoreinfo_symbol(ctx, name, &v);
+			printf("> vsym %s ", kstatus_name(st));
+			if (st == KDUMP_OK) printf("%" PRIu64, (uint64_t)v); else printf("-");
+		} else {
+			char *v = NULL;
+			st = kdump_vmcoreinfo_line(ctx, name, &v);
+			printf("> vline %s ", kstatus_name(st));
+			if (st == KDUMP_OK) { for (h = v; *h; ++h) printf("%02x", (unsigned char)*h); putchar('.'); free(v); } else printf("-");
+		}
+		printf("%s\n", c16_monitor(ctx, st));
 	} else if (!strcmp(line, "tree")) {
 		kdump_attr_ref_t root;
 		kdump_status st = kdump_attr_ref(ctx, NULL, &root);
